@@ -155,8 +155,11 @@ class Predicates:
             try:
                 return {'==': lambda: int(a == b), '!=': lambda: int(a != b), '<': lambda: int(a < b), '<=': lambda: int(a <= b),
                         '>': lambda: int(a > b), '>=': lambda: int(a >= b), '+': lambda: a + b, '-': lambda: a - b,
-                        '&': lambda: a & b, '|': lambda: a | b}[op]()
-            except KeyError:
+                        '&': lambda: a & b, '|': lambda: a | b, '*': lambda: a * b,
+                        '/': lambda: (abs(a) // abs(b)) * (1 if (a >= 0) == (b >= 0) else -1),
+                        '%': lambda: a - b * ((abs(a) // abs(b)) * (1 if (a >= 0) == (b >= 0) else -1)),
+                        '<<': lambda: a << b if 0 <= b < 64 else None, '>>': lambda: a >> b if 0 <= b < 64 else None}[op]()
+            except (KeyError, ZeroDivisionError, TypeError):
                 return None
         if k == 'ConditionalOperator':
             c = self.eval(e['c'][0], env, universe)
